@@ -12,7 +12,7 @@ import (
 func (p *Prog) sendsOn(fv *types.Var) []ssa.Instruction {
 	var out []ssa.Instruction
 	for _, fn := range p.Funcs {
-		for _, in := range p.Info(fn).Instrs {
+		for _, in := range p.Own(fn) {
 			switch x := in.(type) {
 			case *ssa.Send:
 				if lastField(x.Chan) == fv {
@@ -34,7 +34,7 @@ func (p *Prog) sendsOn(fv *types.Var) []ssa.Instruction {
 func (p *Prog) closesOf(fv *types.Var) []ssa.Instruction {
 	var out []ssa.Instruction
 	for _, fn := range p.Funcs {
-		for _, in := range p.Info(fn).Instrs {
+		for _, in := range p.Own(fn) {
 			if isBuiltin(in, "close") && lastField(callOf(in).Args[0]) == fv {
 				out = append(out, in)
 			}
@@ -96,14 +96,14 @@ func clCollectorGuard(c *Ctx) {
 
 	sends := p.sendsOn(fGcchan)
 	for _, s := range sends {
-		c.Check(s.Parent() == collect, s.Parent(), s, "send on gcchan", "garbage lists may be handed to the collection workers only by the in-order collector collectDead")
+		c.Check(p.sameRoot(s.Parent(), collect), s.Parent(), s, "send on gcchan", "garbage lists may be handed to the collection workers only by the in-order collector collectDead")
 	}
 	for _, cl := range p.closesOf(fGcchan) {
-		c.Check(cl.Parent() == closeFn, cl.Parent(), cl, "close(gcchan)", "gcchan may be closed only by (*Nitro).Close")
+		c.Check(p.sameRoot(cl.Parent(), closeFn), cl.Parent(), cl, "close(gcchan)", "gcchan may be closed only by (*Nitro).Close")
 	}
 	fi := p.Info(collect)
 	for _, s := range sends {
-		if s.Parent() != collect {
+		if !p.sameRoot(s.Parent(), collect) {
 			continue
 		}
 		send, ok := s.(*ssa.Send)
@@ -552,14 +552,14 @@ func clGarbageListOwners(c *Ctx) {
 		if fn.Package().Pkg.Path() != modPath {
 			continue
 		}
-		_, ok := allowed[fn]
+		_, ok := allowed[p.Root(fn)]
 		c.Check(ok, fn, s, cnt.in(fn, "SetLink call"), "the GC link of a node is written outside the frozen owner table (DeleteNode winner, NewSnapshot stitch, NodeList): a garbage list can be cut or cross-linked")
 	}
 	fHead := p.Field("nitro", "Writer", "gchead")
 	fTail := p.Field("nitro", "Writer", "gctail")
 	for _, fv := range []*types.Var{fHead, fTail} {
 		for _, w := range p.fieldWrites(fv) {
-			_, ok := allowed[w.fn]
+			_, ok := allowed[p.Root(w.fn)]
 			ok = ok || isFreshBase(w.base)
 			c.Check(ok, w.fn, w.in, cnt.in(w.fn, "write of Writer."+fv.Name()), "a writer's garbage list end is modified outside DeleteNode/NewSnapshot")
 		}
@@ -569,7 +569,7 @@ func clGarbageListOwners(c *Ctx) {
 	if linkF != nil {
 		for _, w := range p.fieldWrites(linkF) {
 			if w.fn.Package().Pkg.Path() == modPath {
-				_, ok := allowed[w.fn]
+				_, ok := allowed[p.Root(w.fn)]
 				c.Check(ok, w.fn, w.in, cnt.in(w.fn, "direct write of Node.Link"), "the GC link of a node is written outside the frozen owner table")
 			}
 		}
